@@ -146,7 +146,16 @@ def find_fn_body_open(mask: str, k: int, hi: int = None) -> int:
             at_line_start = mask[ls:i].strip() == ""
             if not seen_clause or at_line_start:
                 return i
-            i = match_brace(mask, i)
+            # a brace group on a clause line: part of the clause expression (`match x { .. }`, a block) when something
+            # that continues the clause list follows it; otherwise it is the body written on the same line
+            c = match_brace(mask, i)
+            j = c + 1
+            while j < hi and mask[j] in " \t\r\n":
+                j += 1
+            rest = mask[j:j + 12]
+            if j >= hi or not (rest[:1] in ",&|=<>+-*/.?:)" or rest.startswith(("requires", "ensures", "decreases", "recommends", "{", "by", "via", "when"))):
+                return i
+            i = c
         i += 1
     return -1
 
